@@ -1,14 +1,14 @@
-SPECIFICATION FairSpec
+SPECIFICATION TSpec
 CONSTANTS
-  MaxInputs = 1
-  MaxStages = 3
-  Cap = 1
-  Modes = {"link"}
+  MaxInputs = 2
+  MaxStages = 4
+  Cap = 2
+  Modes = {"link", "file", "stdout"}
   FailEnds = {"exit1_before_read", "exit1_mid_write", "exit1_after", "signal", "spawn_fails"}
   LinkEnds = {"exit0", "exit1_after", "signal", "spawn_fails"}
-  MaxFail = 1
+  MaxFail = 2
   Devs = {"TempLeak", "LinkSpawnLeak"}
   KeepReadEnds = TRUE
   EmitCases = FALSE
-PROPERTIES Live_Exits
+POSTCONDITION TraceAccepted
 CHECK_DEADLOCK FALSE
